@@ -1,10 +1,10 @@
-import Mutagen.Proofs.Reconcile
+import Mutagen.Proofs.ReconcileShape
 /-!
 The plan `reconcile` makes at a node that holds a childless file on both
 sides (used by `Properties/C18`).
 -/
 namespace Mutagen.Proofs.ReconcileLeaf
-open Mutagen.Model Mutagen.Proofs.Reconcile
+open Mutagen.Model Mutagen.Proofs.ReconcileShape
 
 /-- A file without children. -/
 def leaf (p : Props) : Option Entry := some (.mk p [])
